@@ -90,3 +90,9 @@ package metrics
 //@ field BackendMetrics.LastHealthCheck guarded_by Metrics.mutex
 //@ field BackendMetrics.AverageResponseTime guarded_by Metrics.mutex
 
+
+//@ func (*MetricsCollector).UpdateCircuitBreakerState
+//@   props C08 C03 C12
+//@   requires mc != nil && mc.metrics != nil && mc.metrics.CircuitBreakerMetrics != nil && unlocked(mc.metrics.mutex)
+//@   requires forall k string :: {mc.metrics.CircuitBreakerMetrics[k]} has(mc.metrics.CircuitBreakerMetrics, k) ==> mc.metrics.CircuitBreakerMetrics[k] != nil
+//@   modifies mapof(mc.metrics.CircuitBreakerMetrics), CircuitBreakerMetrics.State, CircuitBreakerMetrics.FailureCount, CircuitBreakerMetrics.SuccessCount, CircuitBreakerMetrics.RequestCount, CircuitBreakerMetrics.LastStateChange
